@@ -5,7 +5,9 @@ package server
 
 import (
 	"fmt"
+	"strconv"
 	"strings"
+	"time"
 )
 
 type histChecker struct {
@@ -199,10 +201,10 @@ func (hc *histChecker) onReply(op *Op, connID string) {
 			}
 		}
 		// candidate: the op changed nothing and was evaluated on state k
-		for range []int{0} {
+		for _, t := range hc.candidateInstants(lm.states[k], op.Cmd.Args, tLo, tHi) {
 			m := lm.states[k].clone()
 			m.nowHi = tHi
-			r := m.apply(op.Cmd.Args, tLo)
+			r := m.apply(op.Cmd.Args, t)
 			if r.undef {
 				w.harnessErr("client command outside the modelled fragment: %s", clipStr(op.Cmd.String(), 200))
 				return
@@ -211,7 +213,7 @@ func (hc *histChecker) onReply(op *Op, connID string) {
 				if firstErr == nil {
 					firstErr = fmt.Errorf("at position %d the model says the command changes state, but the log has no such entry there", k)
 				}
-				break
+				continue
 			}
 			if err := r.exp(op.Reply); err != nil {
 				if firstErr == nil {
@@ -224,6 +226,39 @@ func (hc *histChecker) onReply(op *Op, connID string) {
 	}
 	w.violate(hc.class+"/reply", "a%02d op%d %s -> %s: no position in [%d,%d] of the log explains it: %v",
 		op.Client, op.Idx, clipStr(op.Cmd.String(), 200), clipStr(op.Reply.String(), 200), lo, hi, firstErr)
+}
+
+// candidateInstants: the instants inside the operation's window at which an unlogged command is
+// evaluated. Normally the start of the window (the model's own interval logic covers the rest);
+// SETHOOK/SETCHAN ... EX s on a hook that already has a deadline adds the one instant at which the
+// new deadline coincides with the old one - the definition is then identical and the server rightly
+// answers 0 and logs nothing (with a virtual clock advancing in round amounts this does happen).
+func (hc *histChecker) candidateInstants(m *Model, args []string, tLo, tHi time.Duration) []time.Duration {
+	out := []time.Duration{tLo}
+	if len(args) < 4 {
+		return out
+	}
+	if c := lower(args[0]); c != "sethook" && c != "setchan" {
+		return out
+	}
+	prev := m.hooks[args[1]]
+	if prev == nil || !prev.hasDL {
+		return out
+	}
+	for i := 2; i+1 < len(args); i++ {
+		switch lower(args[i]) {
+		case "nearby", "within", "intersects":
+			return out
+		case "ex":
+			if f, err := strconv.ParseFloat(args[i+1], 64); err == nil {
+				if t := prev.deadline - time.Duration(f*float64(time.Second)); t > tLo && t <= tHi {
+					out = append(out, t)
+				}
+			}
+			return out
+		}
+	}
+	return out
 }
 
 // finish checks that every log entry was caused by somebody.
